@@ -614,6 +614,7 @@ def write_evidence(prop, tier, cfg, tcfg, seed, agg, stage_info, reported, guard
             'stages': stage_info,
             'real': cfg.get('real', []), 'stubbed': cfg.get('stubbed', []),
             'findings': reported,
+            'prep_notes': (ctx or {}).get('notes', []),
         },
         'assumptions': cfg.get('assumptions', []),
         'wall_s': round(wall, 2),
